@@ -229,18 +229,15 @@ def _is_instance(obj: Any, type_: Any, type_vars: Dict[TypeVar_, Any], context: 
     if _is_type_new_type(type_):
         return isinstance(obj, type_.__supertype__)
 
-    if hasattr(obj, '_asdict'):
-        if hasattr(type_, '_field_types'):
-            field_types = type_._field_types
-        elif hasattr(type_, '__annotations__'):
-            field_types = type_.__annotations__
-        else:
+    if isinstance(type_, type) and issubclass(type_, tuple) and hasattr(type_, '_fields'):
+        # the annotation is a NamedTuple class: the value has to be an instance of it whose fields match their annotations
+        if not isinstance(obj, type_):
             return False
 
-        if not obj._asdict().keys() == field_types.keys():
-            return False
-
-        return all([_is_instance(obj=obj._asdict()[k], type_=v, type_vars=type_vars, context=context) for k, v in field_types.items()])
+        field_types = getattr(type_, '_field_types', None) or getattr(type_, '__annotations__', {})
+        as_dict = obj._asdict()
+        return all([_is_instance(obj=as_dict[k], type_=v, type_vars=type_vars, context=context)
+                    for k, v in field_types.items() if k in as_dict])
 
     if type_ in {list, set, dict, frozenset, tuple, type}:
         raise PedanticTypeCheckException('Missing type arguments')
